@@ -93,8 +93,15 @@ def handle : Handler := fun op inp impl =>
     let xFw := if reads then (Spec.expectForwarded s.names lines).map String.ofList else []
     let xSb := if reads then lastPerName ((Spec.expectRecords s.names lines).map fun (a, b) => (String.ofList a, String.ofList b)) else []
     let stderrOK := !namesOK || (iFw == xFw && iSb == xSb && badPrefix == 0)
+    -- merging the recorded feedback into the outcomes (what report() does first) must not turn a
+    -- set-up error into an ordinary failure: "recorded as setup errors rather than passes"
+    let iAfter := pairs (field impl "afterMerge")
+    let isSetupClass (c : String) : Bool := c == "setup" || c == "norun" || c == "noresult"
+    let mergeOK := iOutcomes.all fun (n', c) =>
+      !isSetupClass c || (match iAfter.find? (·.1 == n') with | some p => isSetupClass p.2 | none => false)
     let why :=
       if hang then "runTestCasesForServer did not return within 15 s"
+      else if keysOK && perCase && !mergeOK then "a set-up error stopped being a set-up error once the reference server's feedback was merged: before " ++ toString iOutcomes ++ " after " ++ toString iAfter
       else if !keysOK then "outcomes recorded for " ++ toString (iOutcomes.map (·.1)) ++ ", batch is " ++ toString names
       else if !perCase then "outcome classes " ++ toString iOutcomes ++ " contradict the fault script (set-up fault ⇒ all set-up errors; answered ⇒ own verdict; after the fault ⇒ set-up error)"
       else if !stopped then s!"server started={iStarted} but abort was called {iAborts} time(s)"
